@@ -49,7 +49,7 @@ def disturb(rng, cfg, nf):
                               "bad_at": None}, data, nf)
 
 
-def fit_form(cfg, rows, nf, form, dtype, cuts, tmp, between=None):
+def fit_form(cfg, rows, nf, form, dtype, cuts, tmp, between=None, fortran=False):
     bb = hist.make_bb(cfg)
     A = np.array(rows, dtype=np.uint8).reshape(len(rows), nf)
     bounds = [0] + list(cuts) + [len(rows)]
@@ -66,6 +66,8 @@ def fit_form(cfg, rows, nf, form, dtype, cuts, tmp, between=None):
         else:
             X = chunk.astype(dtype)
             kw = dict(input_is_packed=False)
+        if fortran and kind != "list":
+            X = np.asfortranarray(X)          # column-major in memory; np.save keeps that order in the file
         if kind == "list":
             X = [r for r in X]
         elif kind == "path":
@@ -100,14 +102,16 @@ def suite_forms(seed, tier):
                     k = rng.randint(0, 3)
                     cuts = sorted(rng.sample(range(1, len(rows)), min(k, len(rows) - 1))) if len(rows) > 1 else []
                     variants.append((form, dt, cuts))
-            for form, dt, cuts in variants:
-                res = fit_form(cfg, rows, nf, form, dt, cuts, tmp)
+            for vi, (form, dt, cuts) in enumerate(variants):
+                # every third array / path variant is handed over column-major (Fortran order)
+                fortran = (vi % 3 == 2) and not form.endswith("list")
+                res = fit_form(cfg, rows, nf, form, dt, cuts, tmp, fortran=fortran)
                 variants_run += 1
                 if ref is None:
                     ref = res
                 elif res != ref:
                     r.bad.append({"suite": "forms", "what": "representation changes the result",
-                                  "cfg": cfg, "nf": nf, "rows": rows, "form": form,
+                                  "cfg": cfg, "nf": nf, "rows": rows, "form": form + (" (Fortran order)" if fortran else ""),
                                   "dtype": np.dtype(dt).name, "cuts": cuts})
                     break
             # repeated runs in a process where OTHER estimators are created, re-configured and used in
